@@ -499,6 +499,12 @@ macro_rules! impl_ind {
             }
             fn de(&self, bytes: &[u8]) -> Result<Box<dyn Ind>, String> {
                 let x: $ty = bincode::deserialize(bytes).map_err(|e| e.to_string())?;
+                // the same bytes through a reader (file, socket): owned instead of borrowed input
+                let y: $ty = bincode::deserialize_from(std::io::Cursor::new(bytes)).map_err(|e| format!("deserialize_from(reader): {}", e))?;
+                let (bx, by) = (bincode::serialize(&x).map_err(|e| e.to_string())?, bincode::serialize(&y).map_err(|e| e.to_string())?);
+                if bx != by {
+                    return Err("deserialize(slice) and deserialize_from(reader) restore different states".to_string());
+                }
                 Ok(Box::new(x))
             }
             fn ser_json(&self) -> Result<String, String> {
@@ -1106,7 +1112,14 @@ impl Inst {
         let params = self.params;
         let src = self.ind.as_ref();
         let r = guarded(|| {
-            let mut other = construct_raw(&params).ok()?;
+            // every other time the receiver was built with *different* periods (clone_from must resize)
+            let mut rp = params;
+            if params.max_period() % 2 == 0 && params.kind.n_periods() > 0 {
+                for q in rp.p.iter_mut().take(params.kind.n_periods()) {
+                    *q = (*q).min(1 << 20) / 2 + 3;
+                }
+            }
+            let mut other = construct_raw(&rp).ok()?;
             // give the receiver a history of its own first
             for i in 0..(params.max_period().min(24) + 3) {
                 let v = 31.0 + ((i * 7) % 11) as f64;
